@@ -430,6 +430,32 @@ def rw_R8_closure_underscore(toks, report):
                             out[k] = T(IDENT, f"_u{cnt}")
                             cnt += 1
                             report.append(("R8", "closure parameter `_` renamed"))
+                    # R8b: a single tuple-pattern parameter `|(a, b)| E` becomes `|verif_p| { let (a, b) = verif_p; E }`
+                    fs = _next_sig(out, i)
+                    if fs < j and out[fs].kind == PUNCT and out[fs].text == "(" and match_close(out, fs) == _prev_sig(out, j):
+                        pat = text_of(out[fs:j]).strip()
+                        bs = _next_sig(out, j)
+                        pname = f"verif_p{cnt}"
+                        cnt += 1
+                        if bs < n and out[bs].text == "{":
+                            out[bs + 1:bs + 1] = [T("raw", f" let {pat} = {pname}; ")]
+                        else:
+                            # expression body: find its end
+                            e = bs
+                            while e < n:
+                                te = out[e]
+                                if te.kind == PUNCT and te.text in OPEN:
+                                    e = match_close(out, e) + 1; continue
+                                if te.kind == PUNCT and (te.text in CLOSE or te.text in (",", ";")):
+                                    break
+                                e += 1
+                            out[e:e] = [T("raw", " }")]
+                            out[bs:bs] = [T("raw", f"{{ let {pat} = {pname}; ")]
+                        out[fs:j] = [T(IDENT, pname)]
+                        n = len(out)
+                        report.append(("R8b", f"closure tuple-pattern parameter {pat} bound by `let` inside the body"))
+                        i = fs + 1
+                        continue
                     i = j + 1
                     continue
         i += 1
@@ -673,10 +699,26 @@ def rw_closure_specs(toks, specs, rep, qual):
     against the closure's real body: `|p| E` -> `|p| -> (b: T) ensures Q { E }`."""
     cl = find_closures(toks)
     out = list(toks)
-    for (k, retdecl, ens) in sorted(specs, key=lambda x: -x[0]):
-        if k >= len(cl):
-            rep.append(("LOST", f"closure ordinal {k} not found ({len(cl)} closures): contract not attached"))
-            continue
+    resolved = []
+    for (k, retdecl, ens) in specs:
+        if isinstance(k, tuple):
+            _, text, nth = k
+            pat = pat_tokens(text)
+            hits = []
+            for idx, (a, close, bs, be, block) in enumerate(cl):
+                sg = [("_" if re.fullmatch(r"_u\d+", t.text) else t.text) for t in toks[a:] if t.kind not in (WS, COMMENT, "raw")][:len(pat)]
+                if sg == pat:
+                    hits.append(idx)
+            if len(hits) < nth:
+                rep.append(("LOST", f"closure {text!r} #{nth} not found: contract not attached"))
+                continue
+            resolved.append((hits[nth - 1], retdecl, ens))
+        else:
+            if k >= len(cl):
+                rep.append(("LOST", f"closure ordinal {k} not found ({len(cl)} closures): contract not attached"))
+                continue
+            resolved.append((k, retdecl, ens))
+    for (k, retdecl, ens) in sorted(resolved, key=lambda x: -x[0]):
         (a, close, bs, be, block) = cl[k]
         hdr = f" -> {retdecl} ensures {ens} "
         if block:
@@ -778,6 +820,7 @@ class Extract:
     desugar_for: list = field(default_factory=list)
     closures: list = field(default_factory=list)   # (ordinal, retdecl, ensures)
     entry: list = field(default_factory=list)      # proof/ghost text inserted at function entry
+    fallback: list = field(default_factory=list)   # text emitted instead when the item no longer exists
     tmpl_line: int = 0
     rename: str = ""
 
@@ -854,6 +897,10 @@ def parse_template(text):
             cur.replaces.append((mm.group(1), _unesc(mm.group(2)), _unesc(mm.group(3)),
                                  int(mm.group(4)) if mm.group(4) else None))
             last = None; i += 1; continue
+        mm = re.match(r"^fallback\s*:\s?(.*)$", body)
+        if mm:
+            ins = ["fallback", "", 1, mm.group(1)]
+            cur.fallback.append(ins); last = ("insert", ins); i += 1; continue
         mm = re.match(r"^entry\s*:\s?(.*)$", body)
         if mm:
             ins = ["entry", "", 1, mm.group(1)]
@@ -868,6 +915,13 @@ def parse_template(text):
         if mm:
             cur.desugar_for = [int(x) for x in mm.group(1).replace(",", " ").split()]
             i += 1; continue
+        mm = re.match(r'^closure\s+"((?:[^"\\]|\\.)*)"\s*(?:#(\d+))?\s*->\s*(\([^)]*\))\s*(?:requires\s+(.*?)\s+)?ensures\s*:\s?(.*)$', body)
+        if mm:
+            c = Clause("closure", "", mm.group(5))
+            c.loop = -2
+            rd = mm.group(3) + (f" requires {mm.group(4)}" if mm.group(4) else "")
+            cur.closures.append([("anchor", _unesc(mm.group(1)), int(mm.group(2) or 1)), rd, c])
+            last = ("clause", c); i += 1; continue
         mm = re.match(r"^closure\s+(\d+)\s*->\s*(\([^)]*\))\s*(?:requires\s+(.*?)\s+)?ensures\s*:\s?(.*)$", body)
         if mm:
             c = Clause("closure", "", mm.group(4))
@@ -1078,7 +1132,15 @@ def build(template_text: str, repo: str, unit: str) -> Built:
         props = [p for p in a.get("props", "").split(",") if p]
         rep = []
         if "fn" in a:
-            item, impl = sf.find(impl=a.get("impl"), kind="fn", name=a["fn"])
+            try:
+                item, impl = sf.find(impl=a.get("impl"), kind="fn", name=a["fn"])
+            except AnchorLost as e:
+                if ex.fallback:
+                    emit(f"// ---- item lost ({e}); fallback text from the unit template ----")
+                    emit("\n".join(f_[3] for f_ in ex.fallback))
+                    report.append(dict(item=f"{a.get('impl','')}::{a['fn']}", src=rel, sha256="", rewrites=[f"LOST: {e}; fallback text used"]))
+                    continue
+                raise
             text, meta = _build_fn(sf, item, impl, ex, props, rep, unit, a)
             first = len(out_lines) + 1
             # emit line by line, picking up label markers
@@ -1243,8 +1305,7 @@ def _build_fn(sf: SourceFile, item: Item, impl, ex: Extract, props, rep, unit, a
         body_toks = rw_debug_assert(body_toks, rep)
     if "R1c" in rules:
         body_toks = rw_R1c_format(body_toks, rep)
-    if "R8" in rules:
-        body_toks = rw_R8_closure_underscore(body_toks, rep)
+    body_toks = rw_R8_closure_underscore(body_toks, rep)   # R8 / R8b: always (pure renaming)
     if "R7a" in rules:
         body_toks = rw_R7_try_into_expect(body_toks, rep)
 
